@@ -312,6 +312,25 @@ def run(ctx):
             ctx.violation('grid/%s/%s/%s' % (cls, tag, 'NFFT-even' if NFFT % 2 == 0 else 'NFFT-odd'),
                           '%s (%s data, NFFT=%d vs %d): %s' % (cls, tag, NFFT, c * NFFT, what), rep)
 
+    # ---------------- every NAMED window once per class that takes one (a change may concern one name only), with and without mean removal
+    for wi, wname in enumerate(E.ALL_WINDOWS):
+        for cls in ('Periodogram', 'pcorrelogram'):
+            cplx = bool(wi % 2); N = 18 + wi % 9; x, kind = E.gen_data(rng, N, cplx)
+            x = x + (2.0 + (1.0j if cplx else 0))
+            cfg = {'window': wname} if cls == 'Periodogram' else {'lag': 4 + wi % 5, 'window': wname}
+            cfg['detrend'] = [None, 'mean'][(wi // 2) % 2]
+            NFFT = max([N, N + 3, 2 * N][wi % 3], 2 * cfg.get('lag', 0) + 2); c = [2, 3][wi % 2]; tag = 'complex' if cplx else 'real'
+            ctx.count('search/windows/%s' % cls)
+            ctx.case(('window', cls, wname, NFFT, c, x.tobytes()), nontrivial=True,
+                     sample={'estimator': cls + ' (every named window)', 'window': wname, 'N': N, 'NFFT': NFFT, 'c': c} if wi == 9 else None)
+            rep = {'estimator': cls, 'cfg': jcfg(cfg), 'NFFT': NFFT, 'c': c, 'sampling': 1.0, 'x': vlib.hexv(np.asarray(x, dtype=complex)), 'datatype': tag}
+            try:
+                what = check_case(cls, x, cfg, NFFT, c, 1.0)
+            except Exception as e:
+                what = 'raised %s: %s' % (type(e).__name__, str(e)[:100])
+            if what is not None:
+                ctx.violation('grid/%s/%s/window_%s' % (cls, tag, wname), '%s with window %r (%s data, NFFT=%d vs %d): %s' % (cls, wname, tag, NFFT, c * NFFT, what), rep)
+
     # ---------------- one object whose NFFT is re-assigned (the NFFT setter keeps the data and recomputes only the grid)
     for it in range(ctx.q(8, 40) * len(E.CLASSES)):
         cls = E.CLASSES[it % len(E.CLASSES)]
